@@ -1,0 +1,64 @@
+// Copyright © 2025 Ory Corp
+// SPDX-License-Identifier: Apache-2.0
+
+//go:build verif
+
+package storage
+
+import (
+	"sync"
+	"sync/atomic"
+	"unsafe"
+)
+
+// Lock events reported to the observer (verif builds only).
+const (
+	LockWanted   = iota // about to block on the lock
+	LockAcquired        // the lock is held
+	LockReleased        // the lock was given up
+)
+
+var lockObserver atomic.Pointer[func(lock uintptr, write bool, event int)]
+
+// SetLockObserver installs a function that is told about every acquisition and release of a MemoryStore table lock.
+func SetLockObserver(f func(lock uintptr, write bool, event int)) {
+	if f == nil {
+		lockObserver.Store(nil)
+		return
+	}
+	lockObserver.Store(&f)
+}
+
+// storeMutex is the lock type guarding the tables of the MemoryStore; in verif builds it reports to the observer.
+type storeMutex struct{ mu sync.RWMutex }
+
+func (m *storeMutex) note(write bool, event int) {
+	if f := lockObserver.Load(); f != nil {
+		(*f)(uintptr(unsafe.Pointer(m)), write, event)
+	}
+}
+
+func (m *storeMutex) Lock()    { m.note(true, LockWanted); m.mu.Lock(); m.note(true, LockAcquired) }
+func (m *storeMutex) Unlock()  { m.note(true, LockReleased); m.mu.Unlock() }
+func (m *storeMutex) RLock()   { m.note(false, LockWanted); m.mu.RLock(); m.note(false, LockAcquired) }
+func (m *storeMutex) RUnlock() { m.note(false, LockReleased); m.mu.RUnlock() }
+
+// LockNames maps the address of every table lock of s to its field name.
+func (s *MemoryStore) LockNames() map[uintptr]string {
+	return map[uintptr]string{
+		uintptr(unsafe.Pointer(&s.clientsMutex)):                "clientsMutex",
+		uintptr(unsafe.Pointer(&s.authorizeCodesMutex)):         "authorizeCodesMutex",
+		uintptr(unsafe.Pointer(&s.idSessionsMutex)):             "idSessionsMutex",
+		uintptr(unsafe.Pointer(&s.accessTokensMutex)):           "accessTokensMutex",
+		uintptr(unsafe.Pointer(&s.refreshTokensMutex)):          "refreshTokensMutex",
+		uintptr(unsafe.Pointer(&s.deviceAuthsMutex)):            "deviceAuthsMutex",
+		uintptr(unsafe.Pointer(&s.pkcesMutex)):                  "pkcesMutex",
+		uintptr(unsafe.Pointer(&s.usersMutex)):                  "usersMutex",
+		uintptr(unsafe.Pointer(&s.blacklistedJTIsMutex)):        "blacklistedJTIsMutex",
+		uintptr(unsafe.Pointer(&s.accessTokenRequestIDsMutex)):  "accessTokenRequestIDsMutex",
+		uintptr(unsafe.Pointer(&s.refreshTokenRequestIDsMutex)): "refreshTokenRequestIDsMutex",
+		uintptr(unsafe.Pointer(&s.deviceAuthsRequestIDsMutex)):  "deviceAuthsRequestIDsMutex",
+		uintptr(unsafe.Pointer(&s.issuerPublicKeysMutex)):       "issuerPublicKeysMutex",
+		uintptr(unsafe.Pointer(&s.parSessionsMutex)):            "parSessionsMutex",
+	}
+}
